@@ -36,8 +36,19 @@ structure Loaded where
   exports : List (Str × TypeRef)
   deps : List (Str × List (Str × TypeRef))     -- DirectDependencies: name ↦ that package's exports
   files : List FileSkel                        -- descriptors converted from j5s (`pkg.Files`)
+  /-- everything below is only read by the link model: converted files of the (transitive)
+  dependencies, and the hand-written `.proto` files of this package and its dependencies
+  (path, package, messages, enums) -/
+  depFiles : List FileSkel := []
+  protos : List (Str × Str × List Str × List (Str × List Str)) := []
 
-instance : Inhabited Loaded := ⟨⟨[], [], [], []⟩⟩
+instance : Inhabited Loaded := ⟨⟨[], [], [], [], [], []⟩⟩
+
+def protoFilesOf (files : List SrcFile) : List (Str × Str × List Str × List (Str × List Str)) :=
+  files.filterMap fun f =>
+    match f with
+    | .proto path msgs enums => some (path, packageFromFilename path, msgs, enums)
+    | .j5s _ _ _ => none
 
 /-- packages of the Go registry that an empty dependency set can still provide -/
 def builtinPkgs : List Str :=
@@ -94,7 +105,7 @@ def loadPkg (b : Bundle) : Nat → List Str → Str → Outcome Loaded
       | .ok sums =>
         let exports := sums.flatMap (·.exports)
         let depNames := (dedup (sums.flatMap (·.depPkgs))).filter (· ≠ name)
-        let rec loadDeps : List Str → Outcome (List (Str × List (Str × TypeRef)))
+        let rec loadDeps : List Str → Outcome (List Loaded)
           | [] => .ok []
           | d :: ds =>
             match loadPkg b fuel (chain ++ [name]) d with
@@ -102,17 +113,21 @@ def loadPkg (b : Bundle) : Nat → List Str → Str → Outcome Loaded
             | .panic w => .panic w
             | .ok l =>
               match loadDeps ds with
-              | .ok more => .ok ((d, l.exports) :: more)
+              | .ok more => .ok (l :: more)
               | o => o
         match loadDeps depNames with
         | .err t => .err t
         | .panic w => .panic w
-        | .ok deps =>
+        | .ok ls =>
+          let deps := ls.map fun l => (l.name, l.exports)
           let res : Resolver := { pkgName := name, exports := exports, deps := deps }
           match convertAll res pkg.files with
           | .err t => .err t
           | .panic w => .panic w
-          | .ok files => .ok { name := name, exports := exports, deps := deps, files := files }
+          | .ok files =>
+            .ok { name := name, exports := exports, deps := deps, files := files,
+                  depFiles := ls.flatMap fun l => l.files ++ l.depFiles,
+                  protos := protoFilesOf pkg.files ++ ls.flatMap (·.protos) }
 
 /-- file skeletons of `CompilePackage`, before linking, sorted by file name -/
 def sortFiles (fs : List FileSkel) : List FileSkel :=
